@@ -67,24 +67,70 @@ const t0Ns = 1700000000000000000
 
 type bench interface {
 	Source() *dastard.AnySource
-	Close()
+	sc() *dastard.SourceControl
+	updates() []dastard.VerifMsg
 	block(chans [][]uint16, signed []bool, first, timeNs int64) dastard.VerifBlockResult
-	rpc() *dastard.VerifC09RPC
+	restart(tryWhileStopped map[int][]int) (supported bool, refusedWhileStopped bool)
+	finish()
 }
 
-type genericBench struct{ *dastard.VerifBench }
+// generic source: a live SourceControl (real Start, CoreLoop, Stop) around a TriangleSource whose own producer
+// is idle; the harness's blocks are processed inside the running CoreLoop
+type liveBench struct{ l *dastard.VerifC09Live }
 
-func (g genericBench) block(chans [][]uint16, signed []bool, first, timeNs int64) dastard.VerifBlockResult {
-	return g.Block(chans, signed, first, timeNs, periodNs, nil, 0)
+func (g liveBench) Source() *dastard.AnySource   { return g.l.Source() }
+func (g liveBench) sc() *dastard.SourceControl   { return g.l.SC }
+func (g liveBench) updates() []dastard.VerifMsg  { return g.l.Updates() }
+func (g liveBench) block(chans [][]uint16, signed []bool, first, timeNs int64) dastard.VerifBlockResult {
+	return g.l.Block(chans, signed, first, timeNs, periodNs)
 }
-func (g genericBench) rpc() *dastard.VerifC09RPC { return g.VerifC09RPC() }
+func (g liveBench) start() error {
+	name := "TRIANGLESOURCE"
+	var reply bool
+	return g.l.SC.Start(&name, &reply)
+}
+func (g liveBench) stop() error {
+	dummy := ""
+	var reply bool
+	return g.l.SC.Stop(&dummy, &reply)
+}
+func (g liveBench) restart(try map[int][]int) (bool, bool) {
+	if err := g.stop(); err != nil {
+		panic(err)
+	}
+	refused := false
+	if try != nil {
+		// a request while no source runs must be refused and must not reach the next run
+		var reply bool
+		refused = g.l.SC.AddGroupTriggerCoupling(dastard.GroupTriggerState{Connections: try}, &reply) != nil
+	}
+	if err := g.start(); err != nil {
+		panic(err)
+	}
+	return true, refused
+}
+func (g liveBench) finish() {
+	g.stop()
+	g.l.Close()
+}
 
-type lanceroBench struct{ *dastard.VerifC09Lancero }
+// Lancero source: card-less LanceroSource prepared by hand, requests executed by a stand-in for the core loop
+type lanceroBench struct {
+	b *dastard.VerifC09Lancero
+	r *dastard.VerifC09RPC
+}
 
+func (l lanceroBench) Source() *dastard.AnySource  { return l.b.Source() }
+func (l lanceroBench) sc() *dastard.SourceControl  { return l.r.SC }
+func (l lanceroBench) updates() []dastard.VerifMsg { return l.r.Updates() }
 func (l lanceroBench) block(chans [][]uint16, signed []bool, first, timeNs int64) dastard.VerifBlockResult {
-	return l.Block(chans, signed, first, timeNs, periodNs)
+	return l.b.Block(chans, signed, first, timeNs, periodNs)
 }
-func (l lanceroBench) rpc() *dastard.VerifC09RPC { return l.VerifC09RPC() }
+func (l lanceroBench) restart(map[int][]int) (bool, bool) { return false, false }
+func (l lanceroBench) finish() {
+	l.r.Close()
+	l.b.Close()
+}
 
 func newBench(c Case) (bench, error) {
 	rate := 1e9 / float64(periodNs)
@@ -93,13 +139,18 @@ func newBench(c Case) (bench, error) {
 		if err != nil {
 			return nil, err
 		}
-		return lanceroBench{b}, nil
+		return lanceroBench{b, b.VerifC09RPC()}, nil
 	}
-	b, err := dastard.VerifNewBench(c.Nchan, c.Npre, c.Nsamp, rate, nil)
+	l, err := dastard.VerifC09NewLive(c.Nchan, c.Npre, c.Nsamp, rate)
 	if err != nil {
 		return nil, err
 	}
-	return genericBench{b}, nil
+	g := liveBench{l}
+	if err := g.start(); err != nil {
+		l.Close()
+		return nil, err
+	}
+	return g, nil
 }
 
 func applyTrig(ds *dastard.AnySource, t Trig, nsamp int) {
@@ -294,7 +345,7 @@ func runCase(c Case) lib.Result {
 	if err != nil {
 		panic(err)
 	}
-	defer b.Close()
+	defer b.finish()
 	ds := b.Source()
 	for ch := 0; ch < c.Nchan; ch++ {
 		if ds.VerifProcessors()[ch].VerifDecimating() {
@@ -302,25 +353,29 @@ func runCase(c Case) lib.Result {
 		}
 	}
 	emt := make([]bool, c.Nchan)
-	for _, t := range c.Trigs {
-		applyTrig(ds, t, c.Nsamp)
-		for _, ch := range t.Chans {
-			if ch >= 0 && ch < c.Nchan {
-				emt[ch] = t.EMT
+	configure := func() {
+		for ch := range emt {
+			emt[ch] = false
+		}
+		for _, t := range c.Trigs {
+			applyTrig(ds, t, c.Nsamp)
+			for _, ch := range t.Chans {
+				if ch >= 0 && ch < c.Nchan {
+					emt[ch] = t.EMT
+				}
 			}
 		}
 	}
+	configure()
 	signed := signedOf(c)
 	var terms []string
 	var impl []stepObs
 	// the RPC layer: requests go through SourceControl's entry points, "reported" is what a client was last sent
-	rpc := b.rpc()
-	defer rpc.Close()
 	view := [][2]int{}
 	coup := 0
 	sawGroupMsg := false
 	absorb := func() {
-		for _, m := range rpc.Updates() {
+		for _, m := range b.updates() {
 			switch m.Tag {
 			case "GROUPTRIGGER":
 				var g dastard.GroupTriggerState
@@ -356,6 +411,9 @@ loop:
 				terms = append(terms, fmt.Sprintf("CyX %s %s %d %s %s", lib.Z(first), lib.Z(t0Ns+tAbs*periodNs), periodNs,
 					chansTerm(chans, signed), primsTerm(c.CrashPrims, c.Nchan)))
 				impl = append(impl, stepObs{Op: "cycle", First: first, Primaries: c.CrashPrims, Crash: true})
+			} else if o.Op == "restart" {
+				terms = append(terms, "RsX")
+				impl = append(impl, stepObs{Op: o.Op, Crash: true})
 			} else {
 				terms = append(terms, "EdX "+editTerm(o))
 				impl = append(impl, stepObs{Op: o.Op, Crash: true})
@@ -425,9 +483,9 @@ loop:
 			var reply bool
 			var err error
 			if o.Op == "add" {
-				err = rpc.SC.AddGroupTriggerCoupling(dastard.GroupTriggerState{Connections: m}, &reply)
+				err = b.sc().AddGroupTriggerCoupling(dastard.GroupTriggerState{Connections: m}, &reply)
 			} else {
-				err = rpc.SC.DeleteGroupTriggerCoupling(&dastard.GroupTriggerState{Connections: m}, &reply)
+				err = b.sc().DeleteGroupTriggerCoupling(&dastard.GroupTriggerState{Connections: m}, &reply)
 			}
 			refused = err != nil
 			if refused {
@@ -436,9 +494,31 @@ loop:
 					tags["refused-request-with-valid-connections"] = true
 				}
 			}
+		case "restart":
+			m, _ := connMap(o.Conn)
+			if len(o.Conn) == 0 {
+				m = nil
+			}
+			ok, refusedIdle := b.restart(m)
+			if !ok {
+				continue // only the live (generic) source can be stopped and started
+			}
+			tags["restart"] = true
+			if len(intended) > 0 {
+				tags["restart-with-connections"] = true
+			}
+			if m != nil {
+				if refusedIdle {
+					tags["request-while-stopped-refused"] = true
+				} else {
+					tags["request-while-stopped-ACCEPTED"] = true
+				}
+			}
+			intended = map[[2]int]bool{}
+			configure() // the new run has new processors with default trigger settings
 		case "stop":
 			var dummy, reply bool
-			refused = rpc.SC.StopTriggerCoupling(&dummy, &reply) != nil
+			refused = b.sc().StopTriggerCoupling(&dummy, &reply) != nil
 			if len(intended) > 0 {
 				tags["stop-with-connections"] = true
 			}
@@ -448,15 +528,15 @@ loop:
 			on, off := true, false
 			switch o.Status {
 			case 3:
-				refused = rpc.SC.CoupleErrToFB(&on, &reply) != nil
+				refused = b.sc().CoupleErrToFB(&on, &reply) != nil
 			case 2:
-				refused = rpc.SC.CoupleFBToErr(&on, &reply) != nil
+				refused = b.sc().CoupleFBToErr(&on, &reply) != nil
 			default:
 				o.Status = 1
 				if o.ViaFB {
-					refused = rpc.SC.CoupleFBToErr(&off, &reply) != nil
+					refused = b.sc().CoupleFBToErr(&off, &reply) != nil
 				} else {
-					refused = rpc.SC.CoupleErrToFB(&off, &reply) != nil
+					refused = b.sc().CoupleErrToFB(&off, &reply) != nil
 				}
 			}
 			if c.Lancero {
@@ -593,6 +673,8 @@ loop:
 			ctor = "St"
 		case "couple":
 			ctor = "Co " + lib.Z(int64(o.Status))
+		case "restart":
+			ctor = "Rs"
 		}
 		terms = append(terms, fmt.Sprintf("%s %s %s %s", ctor, pairsTerm(rep), lib.Z(int64(cnt)), lib.Z(int64(coup))))
 	}
@@ -657,7 +739,7 @@ func crash(raw json.RawMessage, stderr string) (lib.Result, error) {
 		sh := c
 		sh.Ops = nil
 		for _, o := range c.Ops[:k+1] {
-			if o.Op == "cycle" || o.Op == "trig" {
+			if o.Op == "cycle" || o.Op == "trig" || o.Op == "restart" {
 				sh.Ops = append(sh.Ops, o)
 			}
 		}
@@ -742,6 +824,11 @@ func corpus() []Case {
 				cy(3, nil, nil, nil), cy(4, nil, nil, nil), cy(60, []int{36}, nil, nil), cy(45, nil, nil, nil)}},
 		{Nchan: 2, Npre: 4, Nsamp: 9, F0: 0, Trigs: []Trig{{Chans: []int{0}, EMT: true, EMTMode: 1, EMTZero: true}},
 			Ops: []Op{{Op: "add", Conn: [][]int{{0, 1}}}, cy(40, []int{12, 26}, nil), cy(40, []int{28}, nil), cy(40, []int{22, 31}, nil), cy(20, nil, nil)}},
+		// stop and start again: the connections do not survive, clients must be told, and stay told until re-added
+		{Nchan: 3, Npre: 3, Nsamp: 8, F0: 40, Trigs: []Trig{lvl(0, 1, 2)},
+			Ops: []Op{{Op: "add", Conn: [][]int{{0, 1, 2}}}, cy(40, []int{10}, nil, nil), {Op: "restart"},
+				cy(40, []int{10}, nil, nil), {Op: "restart", Conn: [][]int{{0, 1}}}, cy(40, []int{12}, nil, nil),
+				{Op: "add", Conn: [][]int{{0, 2}}}, cy(40, []int{10}, nil, nil)}},
 		// auto triggers: every source fires at the same frames
 		{Nchan: 3, Npre: 3, Nsamp: 6, F0: 10, Trigs: []Trig{{Chans: []int{0, 1}, Auto: true, AutoFrames: 9}},
 			Ops: []Op{{Op: "add", Conn: [][]int{{0, 2}, {1, 2}, {1, 0}}}, cy(25), cy(1), cy(2), cy(25), {Op: "del", Conn: [][]int{{1, 2}}}, cy(25)}},
@@ -899,6 +986,15 @@ func genCase(r *lib.Rng, id int64, tier string) Case {
 	fired := false
 	for i := 0; i < nops; i++ {
 		x := r.Intn(20)
+		if !c.Lancero && r.Chance(1, 10) {
+			// stop the source and start it again: a new run has no connections, and clients must be told
+			o := Op{Op: "restart"}
+			if r.Chance(1, 3) {
+				o.Conn = randConn(r, c.Nchan, false) // also try a request while no source runs
+			}
+			c.Ops = append(c.Ops, o)
+			continue
+		}
 		if c.Lancero && r.Chance(1, 4) {
 			x = 16 // err/fb coupling requests are what a Lancero source is for
 		}
